@@ -693,6 +693,14 @@ impl QueryRouter {
                 // Multi-tables delete are not supported in postgres.
                 assert!(d.tables.is_empty());
 
+                // The table rows are deleted from: needed to match a table-qualified
+                // automatic sharding key.
+                let from_tables = match &d.from {
+                    sqlparser::ast::FromTable::WithFromKeyword(tables) => tables,
+                    sqlparser::ast::FromTable::WithoutKeyword(tables) => tables,
+                };
+                Self::process_tables_with_join(from_tables, &mut exprs, &mut table_names);
+
                 if let Some(using_tbl_with_join) = &d.using {
                     Self::process_tables_with_join(
                         using_tbl_with_join,
